@@ -287,6 +287,41 @@ fn record_with_faults(cell: &Cell, rep: &mut Report) {
     }
 }
 
+/// The first timestamp update under a read-only level is refused (EPERM: the entry belongs to someone else): no
+/// fallback may stamp the entry some other way.
+struct RefuseFirstStamp {
+    errno: i32,
+    done: std::sync::atomic::AtomicBool,
+}
+
+impl shim::Controller for RefuseFirstStamp {
+    fn before(&self, ev: &shim::Ev) -> shim::Action {
+        let in_ro = ev.path.as_ref().map(|p| p.contains("/r0/") || p.contains("/r1/") || p.contains("/r2/")).unwrap_or(false);
+        if ev.kind == shim::Kind::Utimens && in_ro && !self.done.swap(true, std::sync::atomic::Ordering::SeqCst) {
+            return shim::Action::Fail(self.errno);
+        }
+        shim::Action::Proceed
+    }
+}
+
+fn record_with_refused_stamp(cell: &Cell, rep: &mut Report) {
+    for errno in [libc::EPERM, libc::EACCES, libc::EROFS] {
+        let ctl = std::sync::Arc::new(RefuseFirstStamp { errno, done: std::sync::atomic::AtomicBool::new(false) });
+        CONTROLLER.with(|c| *c.borrow_mut() = Some(ctl as std::sync::Arc<dyn shim::Controller>));
+        let before = rep.violations.len();
+        record(cell, rep);
+        CONTROLLER.with(|c| *c.borrow_mut() = None);
+        for v in rep.violations.iter_mut().skip(before) {
+            v.signature = format!("{}-under-fault", v.signature);
+            v.text = format!("[first timestamp update under the read-only levels refused with errno {}] {}", errno, v.text);
+            if let Some(o) = v.case.as_object_mut() {
+                o.insert("refused_stamp".into(), json!(true));
+            }
+        }
+        rep.count("refused_stamp_cells", 1);
+    }
+}
+
 /// Stacks without a write side: whatever call of ensure / get_or_update fails (the scratch file in the system's temporary
 /// directory included), no fallback may reach for a read-only level's directories.
 fn record_with_any_fault(cell: &Cell, rep: &mut Report) {
@@ -336,7 +371,7 @@ pub fn run(_tier: Tier, shard: Shard, rep: &mut Report) {
         advancing on a found entry; missing roots stay missing. Non-trivial = a read-only level holds a copy / a degenerate root \
         or unusual name is involved. The lookup/touch cells are repeated with every planted copy stamped one day ahead of the local \
         clock (entries written by a host whose clock runs ahead), and with the probes (open/stat) of each read-only copy answered \
-        ESTALE, EIO, EACCES or ENOENT; for stacks without a write side every call of ensure/get_or_update failing in turn (the scratch \
+        ESTALE, EIO, EACCES or ENOENT, and the first timestamp update under the read-only levels refused with EPERM/EACCES/EROFS; for stacks without a write side every call of ensure/get_or_update failing in turn (the scratch \
         file in the system's temporary directory included); with planted values of 96 KiB (promotion of large hits); and with every periodic trigger scripted to fire during the operation while two-hour-old debris \
         lies in each level's .kismet_temp."
         .into();
@@ -421,6 +456,13 @@ pub fn run(_tier: Tier, shard: Shard, rep: &mut Report) {
         }
         record_with_faults(cell, rep);
     }
+    for cell in all.iter().filter(|c| matches!(c.op, MOp::Touch | MOp::Get) && c.checker == 0 && c.readers.len() <= 2) {
+        no += 1;
+        if !shard.mine(no) {
+            continue;
+        }
+        record_with_refused_stamp(cell, rep);
+    }
     for cell in all.iter().filter(|c| !c.has_writer() && matches!(c.op, MOp::Ensure | MOp::Gou(_)) && c.readers.len() <= 2 && c.pop <= 1) {
         no += 1;
         if !shard.mine(no) {
@@ -447,6 +489,8 @@ pub fn replay(case: &Value, rep: &mut Report) {
         record_ro(&RoCase::from_json(case), rep);
     } else if case.get("fault_level").is_some() {
         record_with_faults(&Cell::from_json(case), rep);
+    } else if case.get("refused_stamp").is_some() {
+        record_with_refused_stamp(&Cell::from_json(case), rep);
     } else if case.get("any_fault").is_some() {
         record_with_any_fault(&Cell::from_json(case), rep);
     } else {
